@@ -11,13 +11,21 @@ RULE = ("one case = a deterministic, functional program recorded through a real 
         "(in-memory, file-based, S3 over the fake bucket) and replayed 1-2 times on the unchanged program: any number and order "
         "of input and output calls (up to 14 per alias), the same alias with different arguments, static / instance / property "
         "inputs, resolvers, capture subsets, fallbacks, wrap data handlers, nested interceptions, try/except around recorded "
-        "exceptions, values from the faithful domain (tuples, bytes, nested containers, objects, big ints); non-trivial = at "
+        "exceptions, values from the faithful domain (tuples, bytes, nested containers, objects, big ints); plus a probe stream "
+        "that always runs (implementation only): hand-written operations that change what an intercepted input returned IN "
+        "PLACE after the capture, with copy-on-interception on, and whose later outputs and result depend on it - every "
+        "container shape (tuple of list/dict/object/set, tuple in tuple, list, dict, object, nested mixes) x instance/static "
+        "input x no / pass-through / wrapping data handler x the three cassettes, two inputs changed alternately, and a "
+        "never-sampled class (rate 0) whose operation enforces sampling after the capture; non-trivial = at "
         "least two interceptions; distinct = distinct (program, cassette)")
 ASSUMPTIONS = ["worker threads are modelled at start/join granularity (Spawn: a thread started and joined by the operation's own code); "
                "true concurrency is not (the per-alias output counter is a non-atomic read-modify-write, runtime behaviour no "
                "Gallina function exhibits); the Coq theorems are stated for thread-free programs, threaded programs are covered "
                "by the correspondence and the direct predicate",
                "inputs are functions of alias and captured arguments (generated programs are functional by construction)",
+               "intercepted objects are not mutated after capture unless copy-on-interception is on: the main stream's values are "
+               "immutable (the model has no mutable values); the permitted side - mutation after capture with copy-on-interception "
+               "on - is covered by the direct predicate on the mutation probe stream only",
                "values are tree-shaped; a value referenced twice inside one recording together with an earlier plain object "
                "holding a list/dict hits the serializer's py/id defect (known finding F07c) and is kept out of the main stream"]
 THEOREMS = ["C01_nested_not_intercepted", "C01_simulation", "C01_replay_reproduces", "C01_replay_reproduces_run",
@@ -192,7 +200,74 @@ def generate(rng, tier):
             runs.append(dict(kind="play", target=1, pf={"kind": "op", "op": rd.clean(op)}, enabled=rng.random() < 0.5))
             runs.append(dict(kind="play", target=0, pf={"kind": "op", "op": rd.clean(op)}, enabled=rng.random() < 0.5))
         cases.append(dict(draws=[], runs=runs, cassette=["memory", "file", "s3"][i % 3], unshare=True))
+    cases += mutation_probes()
     return cases
+
+
+# ---- probe stream: the operation keeps working in place on what an input returned (copy-on-interception on) -------------
+# The program DSL of the main stream has immutable values only, so "intercepted objects are not mutated after capture unless
+# copy-on-interception is on" was never exercised on its permitted side.  These hand-written operations (implementation only:
+# the Coq model has no mutable values) do exactly that, for every container shape an input can return.
+
+_I, _S, _L, _T, _D = pv.i, pv.s, pv.lst, pv.tup, pv.dct
+_O = lambda cls, kv: {"t": "obj", "cls": "lib.pyvals." + cls, "v": [list(x) for x in kv]}      # noqa: E731
+_pair = lambda k, v: _L([_S(k), v])                                                              # noqa: E731
+
+# name, value the input returns, [(path to the node changed in place, operation, argument)]
+MUT_SHAPES = [
+    ("tuple-of-list", _T([_L([_I(30), _I(10), _I(20)]), _I(3)]), [([0], "sort", None)]),
+    ("tuple-of-dict", _T([_D([("state", _S("new")), ("n", _I(1))]), _S("x")]), [([0], "setitem", _pair("state", _S("processed")))]),
+    ("tuple-of-object", _T([_O("Pt", [("x", _I(1)), ("rows", _L([_I(1)]))]), _I(2)]),
+     [([0], "setattr", _pair("x", _I(5))), ([0, ["attr", "rows"]], "append", _I(9))]),
+    ("tuple-in-tuple", _T([_T([_I(1), _L([_I(2)])]), _T([_I(3)])]), [([0, 1], "append", _I(100))]),
+    ("tuple-of-set", _T([{"t": "set", "v": [_I(1), _I(2)]}, _S("s")]), [([0], "add", _I(7))]),
+    ("list", _L([_I(3), _I(1), _I(2)]), [([], "append", _I(100)), ([], "reverse", None)]),
+    ("list-of-tuple-of-list", _L([_T([_L([_I(1)]), _S("k")]), _I(0)]), [([0, 0], "extend", _L([_I(2), _I(3)]))]),
+    ("dict", _D([("items", _L([_I(1), _I(2), _I(3)])), ("state", _S("new"))]),
+     [(["items"], "append", _I(100)), ([], "setitem", _pair("state", _S("processed")))]),
+    ("dict-delete", _D([("a", _I(1)), ("b", _I(2))]), [([], "delitem", _S("a"))]),
+    ("dict-of-tuple-of-dict", _D([("a", _L([_T([_D([("b", _L([_I(1)]))]), _I(2)])]))]), [(["a", 0, 0, "b"], "append", _I(5))]),
+    ("object", _O("Pt", [("rows", _L([_I(1), _I(2)])), ("name", _S("n"))]),
+     [([["attr", "rows"]], "pop", None), ([], "setattr", _pair("name", _S("renamed")))]),
+    ("object-in-list-in-tuple", _T([_L([_O("Qt", [("y", _D([("k", _I(1))]))])]), _I(1)]),
+     [([0, 0, ["attr", "y"]], "setitem", _pair("k2", _I(2)))]),
+    ("list-clear", _L([_L([_I(1)]), _L([_I(2)])]), [([0], "clear", None), ([], "pop", None)]),
+]
+
+
+def mutation_probes():
+    """Every shape x {instance, static input} x {no handler, a pass-through data handler, a wrapping data handler} spread over
+    the three cassettes (shape k, variant j -> cassette (k + j) mod 3), plus operations with two inputs changed alternately
+    and an input with a captured argument.  Deterministic: the same cases in both tiers and for every seed."""
+    out = []
+    variants = [(False, "none"), (True, "none"), (False, "plain"), (False, "wrap"), (True, "wrap")]
+    for k, (name, value, muts) in enumerate(MUT_SHAPES):
+        for j, (static, handler) in enumerate(variants):
+            steps = [["load", "a", "load"], ["send", "a"]]
+            for path, op, arg in muts:
+                steps += [["mut", "a", path, op, arg], ["send", "a"]]
+            steps.append(["ret", ["a"]])
+            out.append(dict(kind="mutation", shape=name, cassette=["memory", "file", "s3"][(k + j) % 3], copy=True,
+                            static=static, handler=handler, inputs={"load": value}, steps=steps, plays=1 + (k + j) % 2))
+    for k, (name, value, muts) in enumerate(MUT_SHAPES):
+        # "keep only the interesting runs": a class that is never sampled (rate 0) whose operation enforces sampling, right
+        # after reading its input / in the middle / at the very end
+        steps = [["load", "a", "load"], ["send", "a"]]
+        for path, op, arg in muts:
+            steps += [["mut", "a", path, op, arg], ["send", "a"]]
+        at = [1, len(steps) // 2 + 1, len(steps)][k % 3]
+        steps = steps[:at] + [["force"]] + steps[at:] + [["ret", ["a"]]]
+        out.append(dict(kind="mutation", shape=name, cassette=["memory", "file", "s3"][k % 3], copy=True, rate=0,
+                        static=False, handler="none", inputs={"load": value}, steps=steps, plays=1))
+    for k in range(len(MUT_SHAPES)):
+        (n1, v1, m1), (n2, v2, m2) = MUT_SHAPES[k], MUT_SHAPES[(k + 5) % len(MUT_SHAPES)]
+        # two inputs: the second is read after the first was changed; both are changed; the first is changed again at the end
+        steps = [["load", "a", "first"], ["mut", "a"] + list(m1[0]), ["load", "b", "second", _I(k)], ["send", "a"],
+                 ["mut", "b"] + list(m2[0]), ["send", "b"]]
+        steps += [["mut", "a"] + list(m) for m in m1[1:]] + [["ret", ["b", "a"]]]
+        out.append(dict(kind="mutation", shape=n1 + "+" + n2, cassette=["memory", "file", "s3"][k % 3], copy=True,
+                        static=bool(k % 2), handler="none", inputs={"first": v1, "second": v2}, steps=steps, plays=2))
+    return out
 
 
 def canon_rec(items):
@@ -225,6 +300,8 @@ def top_calls(trace):
 def direct(case, obs):
     if "driver_exception" in obs:
         return [("driver", obs["driver_exception"] + obs.get("trace", "")[-400:])]
+    if case.get("kind") == "mutation":
+        return direct_mutation(case, obs)
     fails = []
     rec_obs = [ob for run, ob in zip(case["runs"], obs["runs"]) if run["kind"] == "record"]
     if case.get("probe") == "F01-thread-inside-interception":
@@ -269,6 +346,73 @@ def direct(case, obs):
     return fails
 
 
+def direct_mutation(case, obs):
+    """Replay on unchanged code reproduces the recorded run, for an operation that changed its inputs in place after capture
+    (copy-on-interception on): the replay ends normally, every input call hands the operation what it handed it while
+    recording, no body runs, and the playback outputs equal the recorded outputs (operation result included)."""
+    what = "%s (%s input, handler %s, %s cassette%s)" % (
+        case["shape"], "static" if case.get("static") else "instance", case.get("handler"), case["cassette"],
+        ", sampling rate 0 with sampling enforced by the operation" if case.get("rate") == 0 else "")
+    if obs["outcome"]["o"] != "val" or not obs["saved"]:
+        return [("probe-not-recorded", "%s: the record run ended with %s, saved=%s" % (what, obs["outcome"], obs["saved"]))]
+    if not obs["fetch_ok"]:
+        return [("probe-fetch-differs", "%s: the cassette does not hand back what was saved" % what)]
+    fails = []
+    for i, ob in enumerate(obs["plays"]):
+        if ob["outcome"] != {"o": "val", "v": {"t": "none"}}:
+            fails.append(("mutated-input-replay-failed", "%s, replay %d: play() on the unchanged operation ended with %s" %
+                          (what, i, ob["outcome"])))
+            continue
+        if ob["handed"] != obs["handed"]:
+            k = next((j for j, (x, y) in enumerate(zip(obs["handed"], ob["handed"])) if x != y),
+                     min(len(obs["handed"]), len(ob["handed"])))
+            fails.append(("mutated-input-interception-outcome-differs", "%s, replay %d: input call #%d returned %s while recording "
+                          "and %s in the replay (the operation changed the returned container in place after the capture; "
+                          "copy-on-interception is on)" % (what, i, k, obs["handed"][k:k + 1], ob["handed"][k:k + 1])))
+        if ob["bodies_run"]:
+            fails.append(("body-executed-during-replay", "%s, replay %d: %s" % (what, i, ob["bodies_run"])))
+        if canon_rec(ob["pbouts"]) != canon_rec(ob["recouts"]):
+            pk, rk = dict(canon_rec(ob["pbouts"])), dict(canon_rec(ob["recouts"]))
+            diff = sorted(k for k in set(pk) | set(rk) if pk.get(k) != rk.get(k))
+            fails.append(("mutated-input-outputs-differ", "%s, replay %d: playback outputs and recorded outputs differ at %s: "
+                          "recorded %s, replayed %s" % (what, i, diff[:3], str(rk.get(diff[0]))[:300], str(pk.get(diff[0]))[:300])))
+    return fails
+
+
+# ---- the probe stream is implementation only: the hooks of rec_common apply to history cases ---------------------------------
+_h_to_gallina, _h_explain, _h_features, _h_nontrivial, _h_shrink = to_gallina, explain, features, nontrivial, shrink_candidates  # noqa: F405
+
+
+def to_gallina(case, obs):  # noqa: F811
+    return None if case.get("kind") == "mutation" else _h_to_gallina(case, obs)
+
+
+def explain(case, obs):  # noqa: F811
+    return "tt" if case.get("kind") == "mutation" else _h_explain(case, obs)
+
+
+def features(case):  # noqa: F811
+    if case.get("kind") != "mutation":
+        return _h_features(case)
+    return {"probe:mutated-after-capture", "probe-shape:" + case["shape"], "probe-handler:%s" % case.get("handler"),
+            "probe-input:" + ("static" if case.get("static") else "instance"), "cassette:" + case["cassette"],
+            "probe-inputs:%d" % len(case["inputs"]), "copy-on-interception",
+            "probe-sampling:" + ("rate-0-enforced" if case.get("rate") == 0 else "default")} | \
+        {"probe-op:" + st[3] for st in case["steps"] if st[0] == "mut"}
+
+
+def nontrivial(case):  # noqa: F811
+    return True if case.get("kind") == "mutation" else _h_nontrivial(case)
+
+
+def shrink_candidates(case):  # noqa: F811
+    if case.get("kind") == "mutation":
+        st = case["steps"]
+        return [dict(case, steps=st[:i] + st[i + 1:]) for i in range(len(st)) if st[i][0] in ("mut", "send")] + \
+            ([dict(case, plays=1)] if case.get("plays", 1) > 1 else [])
+    return _h_shrink(case)
+
+
 MANIFEST = dict(
     design_ref="6/C01",
     text="Coq theorems by structural induction over the program syntax: a simulation between the decorators while recording "
@@ -280,7 +424,9 @@ MANIFEST = dict(
          "are not intercepted; the functional-trace hypothesis is shown necessary by a refuting witness. Tie: functional "
          "random programs recorded into the three real cassettes and replayed on the unchanged program; outcome, trace, "
          "playback and recorded outputs compared with the model. Direct predicate: play() returns, every outermost "
-         "intercepted call gets its recorded outcome in order, no body runs, playback_outputs == recorded_outputs.",
+         "intercepted call gets its recorded outcome in order, no body runs, playback_outputs == recorded_outputs; the same predicate "
+         "on hand-written operations that mutate their inputs in place after capture with copy-on-interception on (all container "
+         "shapes, three cassettes; implementation only).",
     note="Partial: worker threads inside an operation are not modelled (single-threaded theorem). Hypotheses: no "
          "enable/disable/play_data statements, restore(prepare v) = v, functional trace, canonical stored values (tree "
          "domain; sharing is known finding F07c). Trusted: Coq kernel + vm_compute, hand-written model, correspondence "
